@@ -139,9 +139,19 @@ def yaml_text(case):
     if f == "not-mapping":
         return "- just\n- a list\n"
     cfg = config_dict(case)
+    if case["args"].get("rs_file") and "run_space" in cfg:
+        cfg.pop("run_space")          # written to rs.yaml instead (--run-space-file)
     if f == "no-pipeline":
         cfg["pipelin"] = cfg.pop("pipeline")
     return yaml.safe_dump(cfg, sort_keys=False, default_flow_style=False)
+
+
+def rs_file_text(case):
+    import yaml
+    block = config_dict(case).get("run_space")
+    if block is None:
+        return None
+    return yaml.safe_dump({"run_space": block} if case["args"]["rs_file"] == "wrapped" else block, sort_keys=False, default_flow_style=False)
 
 
 def fmt_val(v):
@@ -159,6 +169,8 @@ def argv_of(case):
         out.append("--run-space-dry-run")
     if a.get("max_runs") is not None:
         out += ["--run-space-max-runs", str(a["max_runs"])]
+    if a.get("rs_file") and case.get("rs") is not None:
+        out += ["--run-space-file", "rs.yaml"]
     for k, v in a.get("context", []):
         out += ["--context", "%s=%s" % (k, fmt_val(v))]
     if a.get("bad_context"):
@@ -185,6 +197,9 @@ def run_case(case):
         if case["file"] != "missing":
             with open(os.path.join(d, "p.yaml"), "w") as f:
                 f.write(yaml_text(case))
+            if case["args"].get("rs_file") and case.get("rs") is not None:
+                with open(os.path.join(d, "rs.yaml"), "w") as f:
+                    f.write(rs_file_text(case))
         for b in ((case.get("rs") or {}).get("blocks") or []):
             if b.get("source"):          # a CSV file the block loads its columns from
                 cols = b["source"]["cols"]
@@ -202,7 +217,7 @@ def run_case(case):
             return {"timeout": True}
         sinks = sorted(os.path.relpath(p_, d) for p_ in glob.glob(os.path.join(d, "**", "*.txt"), recursive=True))
         tfiles = sorted(os.path.relpath(p_, d) for p_ in glob.glob(os.path.join(d, "tr", "**", "*"), recursive=True) if os.path.isfile(p_))
-        stray = sorted(f for f in os.listdir(d) if f not in ("p.yaml", "tr") and not f.endswith(".txt"))
+        stray = sorted(f for f in os.listdir(d) if f not in ("p.yaml", "rs.yaml", "tr") and not f.endswith(".txt"))
         runs = []
         for tf in tfiles:
             if not tf.endswith(".ser.jsonl"):
@@ -334,7 +349,7 @@ def base_pipeline(rng, multi=False, fail_key=False):
 
 def default_args():
     return {"validate": False, "dry_run": False, "rs_dry": False, "max_runs": None, "context": [], "bad_context": False,
-            "set": [], "set_bad": None, "bad_driver": False, "attempt": None}
+            "set": [], "set_bad": None, "bad_driver": False, "attempt": None, "rs_file": None}
 
 
 def mk_case(rng, cls, flags=None, trace=None):
@@ -438,10 +453,11 @@ def mk_case(rng, cls, flags=None, trace=None):
     elif cls == "run-space-block-sizes-differ":
         case["rs"]["blocks"] = case["rs"]["blocks"] + [{"mode": "by_position", "context": [["extra", [1] * (case["n_runs"] + 1)]]}]
     elif cls == "run-space-over-max-runs":
+        cap = rng.choice([case["n_runs"] - 1, case["n_runs"] - 1, 0])      # 0 is a legal cap: nothing may run
         if rng.random() < 0.5:
-            case["rs"]["max_runs"] = case["n_runs"] - 1
+            case["rs"]["max_runs"] = cap
         else:
-            a["max_runs"] = case["n_runs"] - 1
+            a["max_runs"] = cap
     elif cls == "run-space-attempt-zero":
         a["attempt"] = 0
     elif cls == "missing-context-key":
@@ -453,9 +469,26 @@ def mk_case(rng, cls, flags=None, trace=None):
             k = rng.choice(pool)
             a["context"] = [kv for kv in a["context"] if kv[0] != k]
             case["missing"] = k
+    if case["rs"] is not None and cls != "run-space-duplicate-key-via-source" and rng.random() < 0.3:
+        a["rs_file"] = rng.choice(["wrapped", "bare"])      # the run_space block lives in a separate file (--run-space-file)
     if flags:
         a.update(flags)
     return case
+
+
+def cap_zero_case(rng, how):
+    """a valid configuration under a cap of zero runs: nothing may run (exit 3), however the cap is given"""
+    if how == "implicit-single-run":
+        c = mk_case(rng, "valid", trace=rng.choice(["yaml", "cli"]))
+        c["args"]["max_runs"] = 0
+    else:
+        c = mk_case(rng, "multi", trace=rng.choice(["yaml", "cli"]))
+        if how == "yaml":
+            c["rs"]["max_runs"] = 0
+        else:
+            c["args"]["max_runs"] = 0
+    c["cls"] = c["reject"] = "run-space-over-max-runs"
+    return c
 
 
 ALL_CLASSES = ["valid", "multi", "multi-fail", "runtime-fail"] + sorted(REJECT)
@@ -519,6 +552,15 @@ def gen_cases(rng, n_random, matrix=True):
                         ("type-incompatible-neighbours", {"dry_run": True}), ("missing-context-key", {"validate": True}),
                         ("run-space-mismatched-lengths", {"validate": True})]:
             cases.append(mk_case(rng, cls, flags=fl, trace="yaml"))
+        for how in ("implicit-single-run", "yaml", "cli"):
+            cases.append(cap_zero_case(rng, how))
+        # the gate flags together with a run-space FILE
+        for cls, fl in [("multi", {"rs_dry": True, "rs_file": "bare"}), ("run-space-over-max-runs", {"rs_file": "wrapped"}),
+                        ("multi", {"rs_file": "wrapped"}), ("multi", {"dry_run": True, "rs_file": "bare"})]:
+            c = mk_case(rng, cls, flags=fl, trace="cli")
+            if cls == "run-space-over-max-runs" and c["args"].get("max_runs") is None:
+                c["args"]["max_runs"], c["rs"]["max_runs"] = c["rs"]["max_runs"], None      # cap given on the command line
+            cases.append(c)
     for _ in range(n_random):
         r = rng.random()
         cls = rng.choice(["valid", "multi", "multi-fail", "runtime-fail"]) if r < 0.4 else rng.choice(sorted(REJECT))
